@@ -668,7 +668,8 @@ class Analysis:
         self._folded = {}
         self.folded_calls = set()
         self.dunder_insts = defaultdict(set)
-        self.has_dunders = set()  # instances whose class defines an implicit special method in analysed code
+        self.has_dunders = {}  # instance -> qualified names of the implicit special methods its class defines in analysed code
+        self._fwd = None
         self.store_origin = None  # (context key, statement) while the values of an attribute-store statement are recorded
         self.pre_add = False  # True while an add that certainly precedes the container's escape is recorded
         self.broken_inv = set()  # (class, field) whose constructor-established invariant is violated by some other store
@@ -2202,14 +2203,70 @@ class Analysis:
                     vs = set(vs)
                     for _ in range(2):
                         vs |= self.elements(vs)
-                    if any(o.kind == "inst" and o in self.has_dunders for o in vs):
+                    if self.dunders_may_store({o for o in vs if o.kind == "inst" and o in self.has_dunders}, f):
                         return None
         if self.has_dunders:
             xs = self._pure_read(node.value, ctx)
-            if xs is None or any(o.kind == "inst" and o in self.has_dunders for o in xs):
+            if xs is None or any(o.kind == "inst" and "__getattr__" in self.has_dunders.get(o, {}).values() for o in xs) \
+                    or self.dunders_may_store({o for o in xs if o.kind == "inst" and o in self.has_dunders}, f):
                 return None  # (x itself: x.f may go through its own __getattr__ / be touched by its own special methods)
         self.strong_reads.add((self.site(node)[0], node.lineno, f"{x}.{f}"))
         return self.ev(found.value, ctx)
+
+    def dunders_may_store(self, insts, f):
+        """may a special method of one of these instances -- or anything it calls, transitively, by the call edges of
+        the fixpoint -- store to an attribute named f (or to a computed attribute name)? Only such a store can make
+        `x.f` refer to another object."""
+        if not insts:
+            return False
+        quals = set()
+        for o in insts:
+            quals |= set(self.has_dunders[o])
+        fwd = self._fwd_edges()
+        todo = [k for k in self.ctxs if k[0] in quals]
+        seen = set(todo)
+        while todo:
+            k = todo.pop()
+            c = self.ctxs.get(k)
+            if c is None:
+                continue
+            names = self._attr_stores(c.func)
+            if names is None or f in names:
+                return True
+            for k2 in fwd.get(k, ()):
+                if k2 not in seen:
+                    seen.add(k2)
+                    todo.append(k2)
+        return False
+
+    def _fwd_edges(self):
+        n = sum(len(v) for v in self.call_edges.values())
+        if self._fwd is None or self._fwd[0] != n:
+            fwd = defaultdict(set)
+            for callee, es in self.call_edges.items():
+                for ck, _nid in es:
+                    if ck is not None:
+                        fwd[ck].add(callee)
+            self._fwd = (n, fwd)
+        return self._fwd[1]
+
+    @staticmethod
+    def _attr_stores(func):
+        """names of the attributes a function's own text stores to / deletes; None if it may store to a computed name"""
+        r = getattr(func, "_attr_stores_", False)
+        if r is False:
+            r = set()
+            for n in ast.walk(func.node):
+                if isinstance(n, ast.Attribute) and isinstance(n.ctx, (ast.Store, ast.Del)):
+                    r.add(n.attr)
+                elif isinstance(n, ast.Attribute) and n.attr in ("__dict__", "__setattr__", "__delattr__", "__setstate__"):
+                    r = None
+                    break
+                elif isinstance(n, ast.Name) and n.id in ("setattr", "delattr", "exec", "eval", "vars"):
+                    r = None
+                    break
+            func._attr_stores_ = r
+        return r
 
     def _pure_read(self, n, ctx):
         """value of a Name / Attribute / Subscript load whose evaluation runs no analysed code and allocates nothing
@@ -2981,6 +3038,9 @@ class Analysis:
         r = self.new_ext(node, set(), through=False)
         (e,) = r
         for x in origs:
+            if x.kind == "inst":
+                r = r | self.copy_inst(node, x)
+        for x in origs:
             if x.kind in ("SRC", "GS"):
                 self.add(self.F[(e, "*")], {x})
                 self.add(self.F[(e, "[]")], {x})
@@ -2994,6 +3054,22 @@ class Analysis:
                     self.add(self.F[(e, "*")], x.target)
                     self.add(self.F[(e, "[]")], x.target)
         return r
+
+    def copy_inst(self, node, x):
+        """copy.copy / copy.deepcopy / pickle round trip of an instance of an analysed class: a NEW instance of the
+        SAME class (so its methods are the class's and are analysed), allocated at the copying call. Its fields hold
+        what the original's fields hold -- exact for a shallow copy, an over-approximation for a deep one (whose
+        contents are copies in turn). A class that customises copying (__copy__, __deepcopy__, __reduce__, ...) has
+        those methods analysed like every special method; what they return is a possible result as well."""
+        o = self.obj("inst", (x.py.__module__ + "." + x.py.__qualname__, self.cur.key[0], getattr(node, "lineno", 0), getattr(node, "col_offset", 0), "copy"), x.py,
+                     f"copy of {x.py.__name__}@{self.site(node)[0]}:{getattr(node, 'lineno', 0)}")
+        for a in self.F.attrs_of(x):
+            self.add(self.F[(o, a)], self.F[(x, a)])
+        self.implicit_dunders(o, node, self.cur)
+        out = {o}
+        for nm in ("__copy__", "__deepcopy__", "__reduce__", "__reduce_ex__", "__getstate__"):
+            out |= self.F[(x, "dunder:" + nm)]
+        return out
 
     def derived_doc(self, node, docs, src_expr=None, ctx=None, shallow=False):
         """A fresh designspace-like object derived from `docs`: its own attributes/elements are fresh (itself),
@@ -3424,8 +3500,8 @@ class Analysis:
                     continue
                 if nm in BINARY_DUNDERS:
                     self.dunder_insts[nm].add(o)
-                if o not in self.has_dunders:
-                    self.has_dunders.add(o)
+                if fn.qual not in self.has_dunders.setdefault(o, {}):
+                    self.has_dunders[o][fn.qual] = nm
                     self.changed = True
                 a = fn.node.args
                 npos = len(a.posonlyargs + a.args)
@@ -3493,7 +3569,11 @@ class Analysis:
         # with anything reachable from the other arguments; what they return may end up in the library's result
         cb_results = self.invoke_callbacks(A, node, ctx)
         if name == "deepcopy":
-            return self.new_cont(node, set(), "deepcopy")
+            r = self.new_cont(node, set(), "deepcopy")
+            for x in (args[0][1] if args else set()):
+                if x.kind == "inst":
+                    r = r | self.copy_inst(node, x)
+            return r
         if name == "copy" and py is not None and getattr(py, "__module__", "") == "copy":
             return self.shallow_copy(node, A)
         if name in COPYING_BUILTINS:
@@ -4372,7 +4452,7 @@ class Analysis:
         self.ctxs.clear(); self.alarms.clear(); self.sites.clear(); self.globals_mut.clear()
         self.unknown_calls.clear(); self.cut_hits.clear(); self.repo_calls.clear(); self.strong_reads.clear()
         self.unsupported.clear()
-        self.dunder_insts.clear(); self.has_dunders.clear()
+        self.dunder_insts.clear(); self.has_dunders.clear(); self._fwd = None
         self.assumed_const_globs.clear()
         self.mutated_globs.clear()
         self.used_inv.clear()
@@ -4470,7 +4550,10 @@ class Analysis:
                 if isinstance(node, ast.Lambda):
                     self.add(self.R[c.key], self.ev(node.body, c))
                 else:
-                    self.run_body(node.body, c)
+                    ended = self.run_body(node.body, c)
+                    if not ended and not getattr(c.func, "is_gen", False):
+                        # control may reach the end of the body: the call returns None
+                        self.add(self.R[c.key], {self.NONE})
             for o in [x for x in self.objs.values() if x.shadow_of is not None]:
                 own = dict.get(self.F, (o, "[]"))
                 if own:
